@@ -11,15 +11,15 @@ open Gen Serve
 
 /-- `processACRM` as translated = as modelled (the caller passes `headers.First`'s one-element slice). -/
 theorem processACRM_eq (icfg : ICfg) (buf : Buf) (acrm : Bytes) :
-    Gen.Pipeline.processACRM icfg buf acrm [acrm] = GoRt.result buf (Serve.processACRM icfg buf acrm) := by
-  unfold Gen.Pipeline.processACRM Serve.processACRM GoRt.result
+    Gen.GoSrc.processACRM icfg buf acrm [acrm] = GoRt.result buf (Serve.processACRM icfg buf acrm) := by
+  unfold Gen.GoSrc.processACRM Serve.processACRM GoRt.result
   cases Methods.isSafelisted acrm <;> cases icfg.allowAnyMethod <;> cases icfg.credentialed <;>
     cases icfg.allowedMethods.contains acrm <;> rfl
 
 /-- `processACRPN` as translated = as modelled. -/
 theorem processACRPN_eq (icfg : ICfg) (buf : Buf) (reqHdrs : HdrMap) :
-    Gen.Pipeline.processACRPN icfg buf reqHdrs = GoRt.result buf (Serve.processACRPN icfg buf reqHdrs) := by
-  unfold Gen.Pipeline.processACRPN Serve.processACRPN GoRt.first HdrMap.first GoRt.result
+    Gen.GoSrc.processACRPN icfg buf reqHdrs = GoRt.result buf (Serve.processACRPN icfg buf reqHdrs) := by
+  unfold Gen.GoSrc.processACRPN Serve.processACRPN GoRt.first HdrMap.first GoRt.result
   cases h : reqHdrs Facts.headers_ACRPN with
   | none => rfl
   | some v =>
@@ -30,9 +30,9 @@ theorem processACRPN_eq (icfg : ICfg) (buf : Buf) (reqHdrs : HdrMap) :
 
 /-- `processOriginForPreflight` as translated = as modelled with the model's own decisions. -/
 theorem processOriginForPreflight_eq (icfg : ICfg) (buf : Buf) (origin : Bytes) :
-    Gen.Pipeline.processOriginForPreflight icfg buf origin [origin] =
+    Gen.GoSrc.processOriginForPreflight icfg buf origin [origin] =
       GoRt.result buf (Serve.processOriginForPreflight (modelDec icfg) icfg buf origin) := by
-  unfold Gen.Pipeline.processOriginForPreflight Serve.processOriginForPreflight GoRt.parse modelDec GoRt.result
+  unfold Gen.GoSrc.processOriginForPreflight Serve.processOriginForPreflight GoRt.parse modelDec GoRt.result
   cases h : Lex.parse origin with
   | none => simp [h]
   | some o =>
@@ -40,8 +40,8 @@ theorem processOriginForPreflight_eq (icfg : ICfg) (buf : Buf) (origin : Bytes) 
 
 /-- `processACRH` as translated = as modelled with the model's own decisions. -/
 theorem processACRH_eq (icfg : ICfg) (buf : Buf) (reqHdrs : HdrMap) (debug : Bool) :
-    Gen.Pipeline.processACRH icfg buf reqHdrs debug = GoRt.result buf (Serve.processACRH (modelDec icfg) icfg buf reqHdrs debug) := by
-  unfold Gen.Pipeline.processACRH Serve.processACRH GoRt.lookup modelDec GoRt.result
+    Gen.GoSrc.processACRH icfg buf reqHdrs debug = GoRt.result buf (Serve.processACRH (modelDec icfg) icfg buf reqHdrs debug) := by
+  unfold Gen.GoSrc.processACRH Serve.processACRH GoRt.lookup modelDec GoRt.result
   cases h : reqHdrs Facts.headers_ACRH with
   | none => rfl
   | some acrh =>
@@ -51,16 +51,16 @@ theorem processACRH_eq (icfg : ICfg) (buf : Buf) (reqHdrs : HdrMap) (debug : Boo
 
 /-- `handleNonCORS` as translated = as modelled. -/
 theorem handleNonCORS_eq (icfg : ICfg) (h : HdrMap) (isOPTIONS : Bool) :
-    Gen.Pipeline.handleNonCORS icfg h isOPTIONS = Serve.handleNonCORS icfg h isOPTIONS := by
-  unfold Gen.Pipeline.handleNonCORS Serve.handleNonCORS
+    Gen.GoSrc.handleNonCORS icfg h isOPTIONS = Serve.handleNonCORS icfg h isOPTIONS := by
+  unfold Gen.GoSrc.handleNonCORS Serve.handleNonCORS
   cases isOPTIONS <;> cases icfg.pnaNoCors <;> cases icfg.tree.isEmpty <;> cases icfg.aceh <;> simp
 
 /-- `handleCORSActual` as translated = as modelled with the model's own origin decision (the caller passes
 `headers.First`'s one-element slice). -/
 theorem handleCORSActual_eq (icfg : ICfg) (h : HdrMap) (origin : Bytes) (isOPTIONS : Bool) :
-    Gen.Pipeline.handleCORSActual icfg h origin [origin] isOPTIONS =
-      Serve.handleCORSActual (modelDec icfg) icfg h origin isOPTIONS := by
-  unfold Gen.Pipeline.handleCORSActual Serve.handleCORSActual GoRt.parse modelDec
+    Gen.GoSrc.handleCORSActual icfg h origin [origin] isOPTIONS =
+      (Serve.handleCORSActual (modelDec icfg) icfg h origin isOPTIONS, none) := by
+  unfold Gen.GoSrc.handleCORSActual Serve.handleCORSActual GoRt.parse modelDec
   cases hp : Lex.parse origin with
   | none =>
     cases isOPTIONS <;> cases icfg.pnaNoCors <;> cases icfg.tree.isEmpty <;> cases icfg.credentialed <;>
@@ -69,19 +69,43 @@ theorem handleCORSActual_eq (icfg : ICfg) (h : HdrMap) (origin : Bytes) (isOPTIO
     cases isOPTIONS <;> cases icfg.pnaNoCors <;> cases icfg.tree.isEmpty <;> cases icfg.credentialed <;>
       cases hc : Tree.contains icfg.tree o <;> cases icfg.aceh <;> simp [hp, hc]
 
+/-- The failure status the Go code writes is the regenerated fact the model uses. -/
+theorem forbidden_eq : Serve.forbidden = 403 := by decide
+
+/-- `handleCORSPreflight` as translated = as modelled: the Vary step, the four steps in order with their failure handling in
+both debug modes (what is copied from the buffer, which status is written), `maps.Copy`, the max-age header, the success
+status (`int(icfg.preflightStatusMinus200) + 200`, no `uint8` wrap-around). -/
+theorem handleCORSPreflight_eq (icfg : ICfg) (h reqHdrs : HdrMap) (origin acrm : Bytes) (debug : Bool) :
+    Gen.GoSrc.handleCORSPreflight icfg h reqHdrs origin [origin] acrm [acrm] debug =
+      ((Serve.handleCORSPreflight (modelDec icfg) icfg h reqHdrs origin acrm debug).hdrs,
+       (Serve.handleCORSPreflight (modelDec icfg) icfg h reqHdrs origin acrm debug).status) := by
+  unfold Gen.GoSrc.handleCORSPreflight Serve.handleCORSPreflight Serve.preflightSteps Serve.preflightVary GoRt.lookup
+  simp only [processOriginForPreflight_eq, processACRPN_eq, processACRM_eq, processACRH_eq, GoRt.result, forbidden_eq, okStatus]
+  cases hv : h Facts.headers_Vary <;>
+  cases h1 : Serve.processOriginForPreflight (modelDec icfg) icfg HdrMap.empty origin <;>
+    simp only [] <;> (try (cases debug <;> simp; done))
+  all_goals (
+    rename_i b1
+    cases h2 : Serve.processACRPN icfg b1 reqHdrs <;> simp only [] <;> (try (cases debug <;> simp; done))
+    rename_i b2
+    cases h3 : Serve.processACRM icfg b2 acrm <;> simp only [] <;> (try (cases debug <;> simp; done))
+    rename_i b3
+    cases h4 : Serve.processACRH (modelDec icfg) icfg b3 reqHdrs debug <;> simp only [] <;> (try (cases debug <;> simp; done))
+    cases icfg.acma.isEmpty <;> simp)
+
 /-- The four decision steps of the preflight pipeline, as translated from the working tree, are the modelled ones. -/
 theorem pipeline_eq (icfg : ICfg) (buf : Buf) (reqHdrs : HdrMap) (origin acrm : Bytes) (debug : Bool) :
-    Gen.Pipeline.processOriginForPreflight icfg buf origin [origin] = GoRt.result buf (Serve.processOriginForPreflight (modelDec icfg) icfg buf origin) ∧
-    Gen.Pipeline.processACRPN icfg buf reqHdrs = GoRt.result buf (Serve.processACRPN icfg buf reqHdrs) ∧
-    Gen.Pipeline.processACRM icfg buf acrm [acrm] = GoRt.result buf (Serve.processACRM icfg buf acrm) ∧
-    Gen.Pipeline.processACRH icfg buf reqHdrs debug = GoRt.result buf (Serve.processACRH (modelDec icfg) icfg buf reqHdrs debug) :=
+    Gen.GoSrc.processOriginForPreflight icfg buf origin [origin] = GoRt.result buf (Serve.processOriginForPreflight (modelDec icfg) icfg buf origin) ∧
+    Gen.GoSrc.processACRPN icfg buf reqHdrs = GoRt.result buf (Serve.processACRPN icfg buf reqHdrs) ∧
+    Gen.GoSrc.processACRM icfg buf acrm [acrm] = GoRt.result buf (Serve.processACRM icfg buf acrm) ∧
+    Gen.GoSrc.processACRH icfg buf reqHdrs debug = GoRt.result buf (Serve.processACRH (modelDec icfg) icfg buf reqHdrs debug) :=
   ⟨processOriginForPreflight_eq icfg buf origin, processACRPN_eq icfg buf reqHdrs, processACRM_eq icfg buf acrm,
     processACRH_eq icfg buf reqHdrs debug⟩
 
 /-- The two handlers of requests that are not preflights, as translated from the working tree, are the modelled ones. -/
 theorem handlers_eq (icfg : ICfg) (h : HdrMap) (origin : Bytes) (isOPTIONS : Bool) :
-    Gen.Pipeline.handleNonCORS icfg h isOPTIONS = Serve.handleNonCORS icfg h isOPTIONS ∧
-    Gen.Pipeline.handleCORSActual icfg h origin [origin] isOPTIONS = Serve.handleCORSActual (modelDec icfg) icfg h origin isOPTIONS :=
+    Gen.GoSrc.handleNonCORS icfg h isOPTIONS = Serve.handleNonCORS icfg h isOPTIONS ∧
+    Gen.GoSrc.handleCORSActual icfg h origin [origin] isOPTIONS = (Serve.handleCORSActual (modelDec icfg) icfg h origin isOPTIONS, none) :=
   ⟨handleNonCORS_eq icfg h isOPTIONS, handleCORSActual_eq icfg h origin isOPTIONS⟩
 
 end Translated
